@@ -2,6 +2,7 @@
 from ..census import Census, base_facts, call_graph_sccs
 
 LEVEL = "proof"
+CONFIG_HANDLED = True
 RULE_TEXT = ("panic-site census: every MIR Assert terminator, every call to a partial / panicking / unclassified external callee, "
              "every destructor and every call-graph cycle in the slice-parser modules is an obligation; each is discharged by a "
              "generic rule (const, nonzero-divisor, no-underflow, no-overflow, shift-in-range, index-in-range, precondition) over "
